@@ -9,6 +9,7 @@ import Geo.Transform
 import Geo.Indexing
 import Geo.Arith
 import Geo.Spec.Euclid
+import Geo.Spec.Shapes
 open Geo
 
 def absLeQ (a b : Q) : Bool := decide (Gauss.normSq a ≤ Gauss.normSq b)
@@ -154,6 +155,26 @@ def showMapping : Option (List (Option Nat)) → String
   | none => "err IndexError"
   | some m => "ok " ++ (if m.isEmpty then "-" else String.intercalate "." (m.map fun x => match x with | some a => toString a | none => "N"))
 
+def parseRVec (s : String) : Option (List Rat) := (parseVec s).map (·.map (·.re))
+def showRVec (v : List Rat) : String := showTens ⟨[v.length], (v.map fun x => (⟨x, 0⟩ : Q)).toArray⟩
+def showB (b : Bool) : String := showBools [] [b]
+
+def opShapes (op : String) (args : List String) : String :=
+  match args.mapM parseRVec with
+  | none => "bad-op"
+  | some vs =>
+    match op, vs with
+    | "spec.onsegment", [a, b, p] => "ok " ++ showB (Spec.onSegment a b p)
+    | "spec.onray", [a, d, p] => "ok " ++ showB (Spec.onRay a d p)
+    | "spec.intriangle", [a, b, c, p] => "ok " ++ showB (Spec.inTriangle a b c p)
+    | "spec.inpolygon", _ => match vs.getLast? with
+      | some p => "ok " ++ showB (Spec.inPolygon vs.dropLast p)
+      | none => "bad-op"
+    | "spec.shoelace2", _ => "ok " ++ showRat (Spec.shoelace2 vs)
+    | "spec.vecarea2", _ => "ok " ++ showRVec (Spec.vectorArea2 vs)
+    | "spec.centroidnum", _ => "ok " ++ showRVec (Spec.centroidNum vs)
+    | _, _ => "bad-op"
+
 def dispatch (op : String) (args : List String) : String :=
   match op, args with
   | "diagram", _ => opDiagram args
@@ -266,6 +287,8 @@ def dispatch (op : String) (args : List String) : String :=
   | "spec.cr", [a, b, c, d] => match parseQ a, parseQ b, parseQ c, parseQ d with
     | some a, some b, some c, some d => "ok " ++ showQ (Spec.crParam a b c d)
     | _, _, _, _ => "bad-op"
+  | "spec.onsegment", _ | "spec.onray", _ | "spec.intriangle", _ | "spec.inpolygon", _ | "spec.shoelace2", _
+  | "spec.vecarea2", _ | "spec.centroidnum", _ => opShapes op args
   | "ixmap", r :: comps => match r.toNat?, comps.mapM parseIx with
     | some r, some cs => showMapping (indexMapping r cs)
     | _, _ => "bad-op"
